@@ -688,9 +688,6 @@ impl Property for C16 {
         let (nodes, defs) = gen_cond(t);
         let mut src = String::new();
         // v2: one case in five keeps the content of some arms in included files
-        let mut split = if crate::engine::gen_version() >= 2 && t.chance(1, 5) { Some(IncSplit { files: vec![], choose: (0..8).map(|_| t.chance(1, 3)).collect(), next: 0 }) } else { None };
-        render_nodes_split(&nodes, 0, &mut src, &mut split);
-        let mut inc_files: Vec<(String, String)> = split.map(|s| s.files).unwrap_or_default();
         fn once_in_arm(nodes: &[Node], inside: bool) -> (bool, bool) {
             // (any Once node, a Once node inside an arm)
             let mut r = (false, false);
@@ -713,6 +710,18 @@ impl Property for C16 {
             r
         }
         let (has_once, once_inside_arm) = once_in_arm(&nodes, false);
+        // v3: when a #once file is included from inside an arm, the arm's content moves to an included file more often,
+        // so that the #once file is reached through a SECOND inclusion level under the conditional
+        let deep_once = crate::engine::gen_version() >= 3 && once_inside_arm && t.chance(1, 2);
+        let mut split = if deep_once {
+            Some(IncSplit { files: vec![], choose: (0..8).map(|_| t.chance(2, 3)).collect(), next: 0 })
+        } else if crate::engine::gen_version() >= 2 && t.chance(1, 5) {
+            Some(IncSplit { files: vec![], choose: (0..8).map(|_| t.chance(1, 3)).collect(), next: 0 })
+        } else {
+            None
+        };
+        render_nodes_split(&nodes, 0, &mut src, &mut split);
+        let mut inc_files: Vec<(String, String)> = split.map(|s| s.files).unwrap_or_default();
         if has_once {
             inc_files.push(once_file(0));
             ctx.label(if once_inside_arm { "once-file-included-in-an-arm-and-at-top-level" } else { "once-file-at-top-level-only" });
